@@ -9,7 +9,7 @@ Two sources of truth, both read on every run:
     the multiplier *expressions* of units.c, kept as exact rationals).
 
 The functions of fifo.c are translated as a whole (not only tables) by translate/c2lean.py, the integer formatters of utils.c by
-translate/c2lean_intfmt.py, both called from generate().
+translate/c2lean_intfmt.py, those of lexer.c by translate/c2lean_lexer.py (further c2lean_*.py modules likewise), all called from generate().
 """
 import os, re, subprocess, sys, json
 from fractions import Fraction
@@ -394,9 +394,26 @@ def generate(cfg="A", builddir=None, outpath=None):
                 f.write(_c.stub("ScpiVerif.Gen.IntFmtC", failed["intfmt_c"]))
         except Exception:
             pass
-    return {"changed": old != text or fifo_c.get("changed", False) or intfmt_c.get("changed", False), "path": outpath, "failed": failed,
-            "rows": {"errclass": len(errclass), "errdesc": len(errdesc), "units": len(unit_rows), "special": len(special),
-                     "fifo_c_functions": len(fifo_c.get("functions", [])), "intfmt_c_functions": len(intfmt_c.get("functions", []))}}
+    # C -> Lean translation of lexer.c (Gen/LexerC.lean): same treatment, section "lexer_c" (translate/c2lean_lexer.py).
+    lexer_c = {"functions": [], "changed": False}
+    try:
+        import c2lean_lexer
+        lexer_c = c2lean_lexer.generate_lexer(os.path.join(os.path.dirname(outpath), "LexerC.lean"))
+        if lexer_c["failed"]:
+            failed["lexer_c"] = "; ".join("%s: %s" % kv for kv in sorted(lexer_c["failed"].items()))[:400]
+    except Exception as e:
+        failed["lexer_c"] = ("c2lean_lexer: %s: %s" % (type(e).__name__, e))[:400]
+        try:
+            import c2lean_lexer as _cl
+            with open(os.path.join(os.path.dirname(outpath), "LexerC.lean"), "w") as f:
+                f.write(_cl.stub(failed["lexer_c"]))
+        except Exception:
+            pass
+    gens = {"fifo_c": fifo_c, "intfmt_c": intfmt_c, "lexer_c": lexer_c}
+    rows = {"errclass": len(errclass), "errdesc": len(errdesc), "units": len(unit_rows), "special": len(special)}
+    for _n, _g in gens.items():
+        rows[_n + "_functions"] = len(_g.get("functions", []))
+    return {"changed": old != text or any(_g.get("changed", False) for _g in gens.values()), "path": outpath, "failed": failed, "rows": rows}
 
 if __name__ == "__main__":
     cfg = sys.argv[1] if len(sys.argv) > 1 else "A"
